@@ -343,7 +343,7 @@ def near_inputs(rnd, kl, base_ml=24):
 def gen_scripts(tr, rnd):
     S = []
     thorough = tr == "thorough"
-    reps = 6 if thorough else 1
+    reps = 4 if thorough else 1
     keygrid = [0, 1, 16, 20, 32, 63, 64, 65, 80]
     msggrid = [0, 1, 19, 20, 21, 55, 56, 64, 100, 200]
     for dig in DIGESTS:
@@ -423,7 +423,7 @@ def describe(e):
     return str(e)[:200]
 
 
-MC_INVS = ["PrfDefined", "PrfPrefix", "PrfBlocks", "PrfNeedsAll", "PrfFirstBlock", "PrfSecondBlock",
+MC_INVS = ["PrfDefined", "PrfPrefix", "PrfNeedIsGraph", "PrfNeedsAll", "PrfFirstBlock", "PrfSecondBlock",
            "HashDefined", "HashPrefix", "HashNeedsAll", "HashFirstBlock"]
 
 
